@@ -191,6 +191,23 @@ def gen_case(rng, quick):
     return dict(basis=bs, terms=terms, offset=offset, qn_size=2 if qn2 else 1, via=via, mode=mode, cplx=cplx)
 
 
+def gen_many_primary_case(rng):
+    """8 half-spins, 320-400 full-support terms of 1-3-letter Pauli words per site: several hundred distinct elementary
+    operators and bond dimensions of a few hundred (index tables beyond 16-bit products of their dimensions)"""
+    nsite = 8
+    bs = [dict(kind="spin", dof=f"s{i}") for i in range(nsite)]
+    letters = ["X", "Y", "Z", "sigma_+", "sigma_-"]
+    terms = []
+    for _ in range(int(rng.integers(320, 401))):
+        syms, dofs = [], []
+        for i in range(nsite):
+            for _k in range(int(rng.integers(1, 4))):
+                syms.append(letters[int(rng.integers(len(letters)))])
+                dofs.append(f"s{i}")
+        terms.append([syms, dofs, [float(np.round(rng.normal(), 6)) or 1.0, float(np.round(rng.normal(), 6))]])
+    return dict(basis=bs, terms=terms, offset=0.0, qn_size=1, via="terms", mode="unit", cplx=True)
+
+
 def gen_d12_case(rng):
     """all factors real, at least one term whose local matrix has a complex dtype"""
     nsite = int(rng.integers(1, 4))
@@ -441,13 +458,14 @@ def search(run, rng, quick):
     while it < ncase and time.time() - t0 < budget:
         it += 1
         d12 = (it % 12 == 0)
+        many = (it == 5) or ((not quick) and it % 400 == 5)
         try:
-            case = gen_d12_case(rng) if d12 else gen_case(rng, quick)
+            case = gen_many_primary_case(rng) if many else (gen_d12_case(rng) if d12 else gen_case(rng, quick))
         except Exception as e:  # noqa: BLE001
             run.count(f"generator-error:{type(e).__name__}")
             continue
         bs, terms = case["basis"], case["terms"]
-        run.count("case:d12-class" if d12 else f"case:mode={case['mode']}")
+        run.count("case:many-primary-operators" if many else ("case:d12-class" if d12 else f"case:mode={case['mode']}"))
         run.count(f"case:nsite={len(bs)}")
         run.count(f"case:nterms<={4 * ((len(terms) + 3) // 4)}")
         for f in features(case):
